@@ -54,6 +54,13 @@ def check(ctx):
         ctx.guard("C05.a KIND-S2D", cls.name, lambda cls=cls: check_s2d(ctx, cls), cls.module.relpath)
         ctx.guard("C05.b KIND-D2S", cls.name, lambda cls=cls: check_d2s(ctx, cls), cls.module.relpath)
     ctx.guard("C05.c TRANSFORM-WIRE", "transform", lambda: check_transform(ctx))
+    # the index handed to sparse_to_dense is the caller's own, names included (C11.b: check_series keeps index names)
+    from . import c11
+
+    before = len(ctx.obs)
+    ctx.guard("C05.c TRANSFORM-WIRE", "check_series", lambda: c11.check_series_keeps_names(ctx))
+    for o in ctx.obs[before:]:
+        o.rule = o.rule.replace("C11.b CARRY-INDEX", "C05.c TRANSFORM-WIRE (C11.b CARRY-INDEX)")
     from . import c16
 
     before = len(ctx.obs)
@@ -303,6 +310,10 @@ def check_d2s(ctx, cls):
     # ------------------------------------------------------------ LABEL-SENSITIVE
     if cls.name == "CollectiveAnomalyDetector":
         ks = " ".join(keys)
+        # a circular shift makes the first and the last row neighbours, which they are not: an anomaly that touches both
+        # ends of the series has no start and no end
+        circ = [k for k in keys if "numpy.roll(" in k or ".roll(" in k or "roll(" in k.replace("enroll", "")]
+        ctx.check(not circ, "C05.d LABEL-SENSITIVE", "CollectiveAnomalyDetector|no-wrap-around", fm[0].loc(), "labels are compared with their neighbours through a shift that lets a NORMAL label (0) enter at the boundary, never through a circular shift (np.roll)", found=(circ[0][:160] if circ else "no circular shift"), expected="np.concatenate(([0], labels[:-1])) / np.concatenate((labels[1:], [0]))", nontrivial=False)
         sensitive = _compares_neighbours(keys)
         ctx.check(sensitive, "C05.d LABEL-SENSITIVE", "CollectiveAnomalyDetector", fm[0].loc(), "interval boundaries depend on the label VALUES (labels are compared with their neighbours), so two adjacent anomalies with different labels stay two intervals", found=ks[:260], expected="a comparison labels != shifted labels (not only labels > 0)")
         # starts and ends: ends are exclusive (+1)
